@@ -8,7 +8,7 @@ correspondence:  harness/h_pyagg.py (bundled runtime, in-process) vs `m_c19 mode
 oracle:          `m_c19 spec` = the executable Spec.Aggregate: every answer of the implementation must be the answer
                  EXPRESS gives (accept/refuse, value read, size, bounds, indices, uniqueness)
 """
-import itertools, json, os, subprocess, sys, time
+import itertools, json, os, re, subprocess, sys, time
 from concurrent.futures import ThreadPoolExecutor
 from vlib import build as B
 
@@ -21,17 +21,25 @@ EXTRACTORS = ["pyagg"]
 # a history: (decl, ops) ; decl = (kind, lo, hi|None, base, unique, optional, byname) ; op = tuple
 
 
+def nlines(h):
+    return len(h[1]) + 2          # reset, new, ops
+
+
 def decl_line(d):
     k, lo, hi, base, u, o, n = d
     return f"new {k} {lo} {'?' if hi is None else hi} {base} {int(u)} {int(o)} {int(n)}"
 
 
 def op_line(op):
+    if op[0] == "new":
+        return decl_line(op[1:])
     return " ".join(str(x) for x in op)
 
 
 def hist_lines(h):
-    return [decl_line(h[0])] + [op_line(o) for o in h[1]]
+    """`reset` forgets the containers of the previous history; the interpreter (and whatever module-level state the
+    runtime keeps) lives on: many histories run in one process"""
+    return ["reset", decl_line(h[0])] + [op_line(o) for o in h[1]]
 
 
 def key_of(h):
@@ -41,7 +49,17 @@ def key_of(h):
 
 
 # ---------------------------------------------------------------- generation
+def is_nested(base):
+    return isinstance(base, str) and not base.isdigit()
+
+
 def values(base):
+    """two values of the base type, then ill-typed ones"""
+    if is_nested(base):
+        k, b = base[0], int(base[1])
+        other_kind = {"A": "L", "L": "A", "B": "S", "S": "B"}[k]
+        return [(base, 0), (base, 1), (f"{k}{(b + 1) % 3}", 0), (f"{other_kind}{b}", 0), (b, 0)]
+    base = int(base)
     other = (base + 1) % 3
     return [(base, 0), (base, 1), (other, 0)]
 
@@ -55,7 +73,7 @@ def alphabet(d, rich=True):
         top = 3 if hi is None else min(hi, 3)
         idx = list(range(0, top + 2))
     else:
-        return [("add",) + v for v in vs + [(base, 2)]]
+        return [("add",) + v for v in vs + [(base, 2)]]        # a third value of the base type
     ops = [("set", i) + v for i in idx for v in vs]
     ops += [("get", i) for i in idx]
     return ops
@@ -67,16 +85,19 @@ def exhaustive(d, depth, rich=True):
     return [(d, list(seq) + QUERIES) for seq in itertools.product(al, repeat=depth)]
 
 
-def array_decls(bounds):
-    return [("ARRAY", lo, hi, 0, u, o, 0) for (lo, hi) in bounds for u in (0, 1) for o in (0, 1)]
+def array_decls(bounds, base=0):
+    return [("ARRAY", lo, hi, base, u, o, 0) for (lo, hi) in bounds for u in (0, 1) for o in (0, 1)]
 
 
-def list_decls(bounds):
-    return [("LIST", lo, hi, 0, u, 0, 0) for (lo, hi) in bounds for u in (0, 1)]
+def list_decls(bounds, base=0):
+    return [("LIST", lo, hi, base, u, 0, 0) for (lo, hi) in bounds for u in (0, 1)]
 
 
-def coll_decls(bounds):
-    return [(k, lo, hi, 0, 0, 0, 0) for k in ("BAG", "SET") for (lo, hi) in bounds]
+def coll_decls(bounds, base=0):
+    return [(k, lo, hi, base, 0, 0, 0) for k in ("BAG", "SET") for (lo, hi) in bounds]
+
+
+NESTED = ["A2", "L0", "B1", "S2", "A0", "L2"]
 
 
 ILLEGAL = [("ARRAY", 2, 1, 0, 0, 0, 0), ("ARRAY", 1, None, 0, 0, 0, 0), ("ARRAY", 0, -1, 0, 1, 1, 0),
@@ -84,44 +105,78 @@ ILLEGAL = [("ARRAY", 2, 1, 0, 0, 0, 0), ("ARRAY", 1, None, 0, 0, 0, 0), ("ARRAY"
            ("BAG", -1, 1, 0, 0, 0, 0), ("BAG", 2, 1, 0, 0, 0, 0), ("SET", -2, None, 0, 0, 0, 0), ("SET", 4, 3, 0, 0, 0, 0)]
 
 
-def random_history(rng, length):
+def random_decl(rng):
     k = rng.choice(["ARRAY", "LIST", "LIST", "BAG", "SET"])
-    base = rng.randrange(3)
+    base = rng.choice(NESTED) if rng.random() < 0.3 else rng.randrange(3)
     if k == "ARRAY":
         lo = rng.choice([-3, -1, 0, 1, 1, 2, 5])
         hi = lo + rng.choice([0, 1, 2, 3, 5, 8])
     else:
         lo = rng.choice([0, 0, 1, 2, 4])
         hi = None if rng.random() < 0.35 else lo + rng.choice([0, 1, 2, 3, 6])
-    d = (k, lo, hi, base, int(rng.random() < 0.5), int(rng.random() < 0.5), int(rng.random() < 0.3))
-    nvals = rng.choice([2, 3, 6, 12])
-    ops, size = [], 0            # size: a guess of the current size, only to aim indices at interesting places
+    byname = int(rng.random() < 0.3 and not is_nested(base))
+    return (k, lo, hi, base, int(rng.random() < 0.5), int(rng.random() < 0.5), byname)
 
-    def val():
-        if rng.random() < 0.08:
-            return ((base + 1 + rng.randrange(2)) % 3, rng.randrange(nvals))
-        return (base, rng.randrange(nvals))
-    for _ in range(length):
+
+class Cursor:
+    """generates the next operation for one container, aiming indices at interesting places"""
+    def __init__(self, rng, d):
+        self.rng, self.d, self.size = rng, d, 0
+        self.nvals = rng.choice([2, 3, 6, 12])
+
+    def val(self):
+        rng, base = self.rng, self.d[3]
+        if rng.random() < (0.25 if is_nested(base) else 0.08):
+            return rng.choice(values(base)[2:])[:1] + (rng.randrange(self.nvals),)
+        return (base, rng.randrange(self.nvals))
+
+    def op(self):
+        rng, (k, lo, hi) = self.rng, self.d[:3]
         r = rng.random()
         if k in ("BAG", "SET"):
             if r < 0.7:
-                ops.append(("add",) + val()); size += 1
-            else:
-                ops.append(rng.choice(QUERIES))
-            continue
+                self.size += 1
+                return ("add",) + self.val()
+            return rng.choice(QUERIES)
         if k == "ARRAY":
             i = rng.randint(lo - 1, hi + 1)
         else:
-            i = rng.choice([size + 1, size + 1, rng.randint(0, size + 2), rng.randint(1, max(1, size))])
+            i = rng.choice([self.size + 1, self.size + 1, rng.randint(0, self.size + 2), rng.randint(1, max(1, self.size))])
         if r < 0.5:
-            ops.append(("set", i) + val())
-            if i == size + 1:
-                size += 1
-        elif r < 0.8:
-            ops.append(("get", i))
-        else:
-            ops.append(rng.choice(QUERIES))
-    return (d, ops + QUERIES)
+            if i == self.size + 1:
+                self.size += 1
+            return ("set", i) + self.val()
+        if r < 0.8:
+            return ("get", i)
+        return rng.choice(QUERIES)
+
+
+def random_history(rng, length):
+    d = random_decl(rng)
+    c = Cursor(rng, d)
+    return (d, [c.op() for _ in range(length)] + QUERIES)
+
+
+def random_world(rng, length, n=3):
+    """n containers side by side in one interpreter, their operations interleaved at random"""
+    decls = [random_decl(rng) for _ in range(n)]
+    if rng.random() < 0.7:          # same nested base type in two containers: shared-type state would show
+        b = rng.choice(NESTED)
+        decls[0] = decls[0][:3] + (b,) + decls[0][4:6] + (0,)
+        decls[1] = decls[1][:3] + (b,) + decls[1][4:6] + (0,)
+    cur = [Cursor(rng, d) for d in decls]
+    ops = []
+    for i in range(1, n):
+        ops += [("use", i), ("new",) + decls[i]]
+    at = n - 1
+    for _ in range(length):
+        i = rng.randrange(n)
+        if i != at:
+            ops.append(("use", i)); at = i
+        ops.append(cur[i].op())
+    for i in range(n):
+        ops += [("use", i)] + QUERIES
+    return (decls[0], ops)
 
 
 # ---------------------------------------------------------------- running the three sides
@@ -148,9 +203,9 @@ class Sides:
     def run(self, histories, workers=14):
         """-> per history: (impl replies, model replies, spec replies) ; raises on a dead side"""
         chunks, cur, n = [], [], 0
-        target = max(2000, sum(len(h[1]) + 1 for h in histories) // (workers * 2) + 1)
+        target = max(2000, sum(nlines(h) for h in histories) // (workers * 2) + 1)
         for h in histories:
-            cur.append(h); n += len(h[1]) + 1
+            cur.append(h); n += nlines(h)
             if n >= target:
                 chunks.append(cur); cur, n = [], 0
         if cur:
@@ -161,7 +216,7 @@ class Sides:
             text = "\n".join(l for h in chunks[ci] for l in hist_lines(h)) + "\n"
             cmd = getattr(self, side)
             rc, out, err = run_side(cmd, text, self.env if side == "impl" else None)
-            want = sum(len(h[1]) + 1 for h in chunks[ci])
+            want = sum(nlines(h) for h in chunks[ci])
             if rc != 0 or len(out) != want:
                 raise RuntimeError(f"{side} side died: rc={rc} lines={len(out)}/{want} {err[-400:]}")
             return side, ci, out
@@ -173,9 +228,10 @@ class Sides:
         for ci, ch in enumerate(chunks):
             p = 0
             for h in ch:
-                m = len(h[1]) + 1
+                m = nlines(h)
                 outs.append(tuple(res[(s, ci)][p:p + m] for s in ("impl", "model", "spec")))
                 p += m
+        self.last_chunks = chunks
         return outs
 
 
@@ -218,20 +274,24 @@ def evaluate(ctx, sides, histories, label, slice_size=60000):
         if not part:
             break
         outs = sides.run(part)
-        for h, o in zip(part, outs):
+        before = []                      # for every history: the histories run earlier in the same interpreter process
+        for ch in sides.last_chunks:
+            for pos in range(len(ch)):
+                before.append((ch, pos))
+        for (h, o), (ch, pos) in zip(zip(part, outs), before):
             d = h[0]
             declc[d[0] + ("[?]" if d[2] is None else "") + ("U" if d[4] else "") + ("O" if d[5] and d[0] == "ARRAY" else "")] += 1
             if o[1] != o[2] or any(a != m and canon(a) != m for a, m in zip(o[0], o[1])):
                 j = judge(h, o)
                 if j:
-                    problems.append((h, j))
+                    problems.append((h, j, ch[:pos]))
             if not exhaustive_batch and hasattr(ctx, "distinct"):
                 ctx.distinct.add((h[0], tuple(h[1])))
         for h in part:
             opc.update(op[0] for op in h[1])
         for o in outs:
             ansc.update(o[0])
-        nh += len(part); nl += sum(len(h[1]) + 1 for h in part)
+        nh += len(part); nl += sum(nlines(h) for h in part)
         if len(problems) > 5000:
             break
     if hasattr(ctx, "cov"):
@@ -262,7 +322,7 @@ def shrink(sides, h, kind):
     j = still(sides, h, kind)
     if not j:
         return h, None
-    ops = list(ops[:j[1]])          # line j is op j-1 (line 0 = new)
+    ops = list(ops[:max(j[1] - 1, 0)])          # line j is op j-2 (line 0 = reset, line 1 = new)
     changed = True
     while changed and len(ops) > 0:
         changed = False
@@ -296,16 +356,56 @@ def normalise(h):
     return (d, out)
 
 
+def in_company(sides, company, h, kind):
+    """run `company` then `h` in ONE interpreter process; the verdict on h"""
+    text_hist = list(company) + [h]
+    res = {}
+    for side in ("impl", "model", "spec"):
+        text = "\n".join(l for x in text_hist for l in hist_lines(x)) + "\n"
+        rc, out, err = run_side(getattr(sides, side), text, sides.env if side == "impl" else None)
+        res[side] = out
+    m = nlines(h)
+    o = tuple(res[side][-m:] for side in ("impl", "model", "spec"))
+    j = judge(h, o)
+    return j if (j and j[0] == kind) else None
+
+
+def interference(ctx, sides, h, j, prefix):
+    """h fails after other histories ran in the same interpreter but not in a fresh one: that is a violation by itself
+    (`C19_noninterference`: a container's answers depend on its own operations only)"""
+    culprit = None
+    for p in reversed(prefix[-400:]):
+        if in_company(sides, [p], h, j[0]):
+            culprit = [p]
+            break
+    if culprit is None:
+        culprit = list(prefix)
+        if not in_company(sides, culprit, h, j[0]):
+            return False
+    lines = [l for x in culprit + [h] for l in hist_lines(x)]
+    key = "interference:" + key_of(h) + "<-" + (key_of(culprit[0]) if len(culprit) == 1 else f"{len(culprit)}-histories")
+    ctx.violation(key, "the answer depends on what another container did earlier in the same interpreter (in a fresh process the "
+                  "same history is answered as EXPRESS requires): " + j[2],
+                  {"lines": lines, "how": "feed ALL lines to one `VERIF_REPO=<tree> python3 harness/h_pyagg.py` process and to "
+                   "`m_c19 spec`; then feed only the lines from the last `reset` on to a fresh process: the last answer differs"})
+    return True
+
+
 def report(ctx, sides, problems, cap=8):
     seen, sigs = set(), set()
     props = [p for p in problems if p[1][0] == "property"]
-    for h, j in sorted(props, key=lambda p: len(p[0][1])):
+    for h, j, prefix in sorted(props, key=lambda p: len(p[0][1])):
         sg = signature(h, j)
         if sg in sigs:
             continue
         sigs.add(sg)
         sh, sj = shrink(sides, h, "property")
         if not sj:
+            # not reproducible in a fresh interpreter process
+            if not interference(ctx, sides, h, j, prefix):
+                ctx.broken.append(("flaky implementation answer", f"{j[2]} was observed once and reproduces neither alone nor after the same predecessors"))
+            if len(ctx.violations) >= cap:
+                break
             continue
         nh = normalise(sh)
         nj = still(sides, nh, "property")
@@ -321,7 +421,7 @@ def report(ctx, sides, problems, cap=8):
         if len(ctx.violations) >= cap:
             break
     if not props:
-        for h, j in problems[:1]:
+        for h, j, prefix in problems[:1]:
             sh, sj = shrink(sides, h, "correspondence")
             ctx.broken.append(("correspondence PyAgg model vs stepcode/AggregationDataTypes.py",
                                f"{(sj or j)[2]}; minimal history: {hist_lines(sh)} (the implementation's answers equal EXPRESS's on it)"))
@@ -338,14 +438,23 @@ def corpus():
     return out
 
 
+def _tok(x):
+    return int(x) if re.fullmatch(r"-?\d+", x) else x
+
+
+def _decl(w):
+    return (w[1], int(w[2]), None if w[3] == "?" else int(w[3]), _tok(w[4]), int(w[5]), int(w[6]), int(w[7]))
+
+
 def parse_lines(lines):
+    lines = [l for l in lines if l.split() != ["reset"]]
     w = lines[0].split()
     assert w[0] == "new"
-    d = (w[1], int(w[2]), None if w[3] == "?" else int(w[3]), int(w[4]), int(w[5]), int(w[6]), int(w[7]))
+    d = _decl(w)
     ops = []
     for l in lines[1:]:
         t = l.split()
-        ops.append(tuple([t[0]] + [int(x) for x in t[1:]]))
+        ops.append(("new",) + _decl(t) if t[0] == "new" else tuple([t[0]] + [_tok(x) for x in t[1:]]))
     return (d, ops)
 
 
@@ -379,8 +488,29 @@ def batches(ctx):
     for depth in range(1, dc + 1):
         yield f"exhaustive-BAG-SET-{depth}", gen(coll_decls(col_b), depth)
     yield "exhaustive-byname", gen([d[:6] + (1,) for d in array_decls([(1, 2)]) + list_decls([(0, 2), (1, None)]) + coll_decls([(1, 2)])], 2)
+    # aggregates of aggregates: check_type against an aggregate base type (class + base type of the element)
+    def nested(bases, depth, full=True):
+        return (h for b in bases
+                for d in (array_decls([(1, 2)], b) + list_decls([(0, None), (0, 2)], b) + coll_decls([(0, None), (0, 2)], b) if full
+                          else array_decls([(1, 2)], b)[1:3] + list_decls([(0, None)], b) + coll_decls([(0, None)], b))
+                for h in exhaustive(d, depth))
+    for depth in (1, 2):
+        yield f"exhaustive-nested-{depth}", nested(NESTED[:4] if quick else NESTED, depth)
+    if quick:
+        yield "exhaustive-nested-3", nested(NESTED[:2], 3, full=False)
+    else:
+        yield "exhaustive-nested-3", nested(NESTED, 3)
+        yield "exhaustive-nested-4", nested(NESTED[:2], 4, full=False)
     n, ln = (400, 40) if quick else (20000, 50)
     yield "random", [random_history(ctx.rng, ln) for _ in range(n)]
+    # several containers side by side in one interpreter, operations interleaved
+    nw = 300 if quick else 6000
+    yield "interleaved-containers", [random_world(ctx.rng, 60 if quick else 90) for _ in range(nw)]
+    # the same histories again, in another order and in other company (each chunk = one interpreter process)
+    again = [random_history(ctx.rng, 25) for _ in range(300 if quick else 4000)]
+    yield "company-a", again
+    shuffled = list(again); ctx.rng.shuffle(shuffled)
+    yield "company-b-shuffled", shuffled
 
 
 def run(ctx):
